@@ -28,6 +28,14 @@ def run(chk):
         for codec in (0, 1, 2):
             ops = [("a", g.record(z.nodes)) for _ in range(4)] + [("w",)] + [("a", g.record(z.nodes)) for _ in range(3)] + [("w",), ("c",)]
             extra.append(filelevel.Case(z, 1 + codec % 2, codec, ops, "multi-page"))
+    # page headers of several hundred bytes up to > 128 KiB: min/max statistics of long string values
+    z = zs.get("three")
+    if z is not None:
+        for k, size in enumerate((300, 600, 2100, 9000, 70000)):
+            val = lambda j: bytes((i * 7 + j + i // 251) % 256 for i in range(size))
+            recs = [("struct", [("leaf", zoolib.le(j, 8)), ("some", ("leaf", val(j))), ("list", [])]) for j in range(3)]
+            ops = [("a", r) for r in recs] + [("w",), ("a", recs[0]), ("w",), ("c",)]
+            extra.append(filelevel.Case(z, 2, k % 3, ops, "large-header"))
     filelevel.run_cases(pair, extra, want_parse=False, want_read=False)
     cases += extra
     tabtxt = lambda d: ",".join("%s=%s" % kv for kv in d.items()) or "-"
